@@ -9,16 +9,22 @@ import (
 	"fmt"
 	"testing"
 
+	"example.com/scion-time/core/server"
+
 	"verif.local/harness/tsskit"
 	"verif.local/mc"
 )
 
-var mode = flag.String("vmode", "handler", "handler|listener")
+var mode = flag.String("vmode", "handler", "handler|listener|cap3")
 
 func TestCheck(t *testing.T) {
 	mc.Main(t, "C06", func(r *mc.Run) {
 		if *mode == "listener" {
 			listenerLayer(r)
+			return
+		}
+		if *mode == "cap3" {
+			capLayer(r)
 			return
 		}
 		type scen struct {
@@ -42,4 +48,22 @@ func TestCheck(t *testing.T) {
 		}
 		r.Extra["rule"] = "histories of H(client, kind in 6, receive time in 6, clock reading in 4) and U(in-flight exchange, reported transmit time in 5: kernel time, none, 1 ns before the receive time, exactly the receive time, a sibling's time): all histories of 3 steps (thorough 4); all histories of 7 steps (9) within 4 (5) deviations from normal operation, from stores prefilled with 0/7/8/9 exchanges"
 	})
+}
+
+// capLayer: the reply rules on a store that evicts (tssCap re-valued to 3 in
+// the compiled copy, five client identities): a client admitted in place of
+// an evicted one starts without history, and no reply ever serves a transmit
+// timestamp of an exchange the requesting client did not take part in.
+func capLayer(r *mc.Run) {
+	if server.VerifTSSCap > 8 {
+		r.Fail("cap3", "harness-capacity-not-revalued", fmt.Sprintf("tssCap is %d in the compiled copy; the cap3 variant needs the tsscap overlay", server.VerifTSSCap), "")
+		return
+	}
+	cl := []string{"A", "B", "C", "D", "E"}
+	r.Extra["small_cap"] = server.VerifTSSCap
+	r.Explore(mc.Config{Name: "cap3/replies", Bound: mc.Pick(r, 2, 3), Prune: true},
+		tsskit.Program(tsskit.Params{Clients: cl, Steps: mc.Pick(r, 6, 7), FreeClientRx: true, RxKinds: 3, Prune: true}, nil))
+	r.Explore(mc.Config{Name: "cap3/dev", Bound: mc.Pick(r, 4, 5)},
+		tsskit.Program(tsskit.Params{Clients: cl, Steps: mc.Pick(r, 7, 8)}, nil))
+	r.Extra["rule"] = "store capacity 3, five client identities: all histories of 6 (7) steps with free client and receive-time order choices and <=2 (3) other deviations (kinds incl. origin = a receive timestamp handed to another, possibly evicted, client), canonical-state pruned, and the full alphabet within 4 (5) deviations over 7 (8) steps; replies judged by the step relation and by a history-based record of which receive timestamps each client was handed"
 }
